@@ -127,7 +127,7 @@ public:
                     "reach:AttributesTools::getAttributesMapFromFile", "reach:AttributesTools::getAttributesMap", "reach:AttributesTools::resolveVariables", "reach:AttributesTools::parseOptions",
                     "reach:ApplicationTools::getParameter", "reach:ApplicationTools::getVectorParameter", "reach:ApplicationTools::matchingParameters",
                     "reach:BppODiscreteDistributionFormat::readDiscreteDistribution", "reach:IntervalConstraint::readDescription", "reach:KeyvalTools::parseProcedure", "reach:KeyvalTools::multipleKeyvals",
-                    "reach:KeyvalTools::singleKeyval", "reach:TextTools::removeSubstrings", "reach:TextTools::removeSubstrings(exceptions)", "reach:TextTools::resize", "reach:TextTools::split", "reach:TextTools::search", "reach:TextTools::toDouble", "reach:TextTools::toInt", "raised:TextTools::removeSubstrings", "raised:TextTools::toDouble", "reach:FileTools::getFileName", "reach:FileTools::getExtension", "reach:FileTools::getParent", "reach:NumCalcApplicationTools::getVector", "reach:NumCalcApplicationTools::seqFromString", "reach:NumCalcApplicationTools::getParameterGrid", "raised:NumCalcApplicationTools::getVector", "raised:NumCalcApplicationTools::seqFromString", "raised:NumCalcApplicationTools::getParameterGrid", "reach:KeyvalTools::changeKeyvals", "reach:NestedStringTokenizer", "reach:StringTokenizer", "reach:StringTokenizer::unparseRemainingTokens", "reach:ComputationTree",
+                    "reach:KeyvalTools::singleKeyval", "reach:ParameterList::getMatchingParameterNames", "reach:TextTools::removeSubstrings", "reach:TextTools::removeSubstrings(exceptions)", "reach:TextTools::resize", "reach:TextTools::split", "reach:TextTools::search", "reach:TextTools::toDouble", "reach:TextTools::toInt", "raised:TextTools::removeSubstrings", "raised:TextTools::toDouble", "reach:FileTools::getFileName", "reach:FileTools::getExtension", "reach:FileTools::getParent", "reach:NumCalcApplicationTools::getVector", "reach:NumCalcApplicationTools::seqFromString", "reach:NumCalcApplicationTools::getParameterGrid", "raised:NumCalcApplicationTools::getVector", "raised:NumCalcApplicationTools::seqFromString", "raised:NumCalcApplicationTools::getParameterGrid", "reach:KeyvalTools::changeKeyvals", "reach:NestedStringTokenizer", "reach:StringTokenizer", "reach:StringTokenizer::unparseRemainingTokens", "reach:ComputationTree",
                     "raised:DataTable::read", "raised:DataTable::edit", "raised:AttributesTools::resolveVariables", "raised:AttributesTools::parseOptions", "raised:ApplicationTools::getParameter",
                     "raised:BppODiscreteDistributionFormat::readDiscreteDistribution", "raised:IntervalConstraint::readDescription", "raised:KeyvalTools::parseProcedure", "raised:KeyvalTools::multipleKeyvals",
                     "raised:NestedStringTokenizer", "raised:StringTokenizer", "raised:ComputationTree",
